@@ -131,34 +131,8 @@ func checkC09(c *km.Ctx) {
 	// ---------------- R-C09-2
 	unseal := c.MustFunc("R-C09-2", "cmd/keymasterd", "(*RuntimeState).unsealCA")
 	if unseal != nil && loader != nil {
-		// lock from entry
-		first := ""
-		hasDefer := false
-		for _, in := range unseal.Blocks[0].Instrs {
-			if ci, ok := in.(ssa.CallInstruction); ok {
-				n := km.CalleeFull(ci.Common())
-				if _, isDefer := in.(*ssa.Defer); isDefer {
-					if n == "(*sync.Mutex).Unlock" {
-						hasDefer = true
-					}
-					continue
-				}
-				if first == "" {
-					first = n
-				}
-			}
-		}
-		r.Add("R-C09-2", km.FuncName(unseal), "mutex from entry to every return", c.P.Pos(unseal.Pos()), "first call is state.Mutex.Lock() and Unlock is deferred in the entry block", sprintf("first call=%s deferred unlock=%v", first, hasDefer), first == "(*sync.Mutex).Lock" && hasDefer)
+		checkUnsealLock(c, ls, unseal, "R-C09-2")
 		held := ls.Held(unseal)
-		allHeld := true
-		km.Instrs(unseal, func(in ssa.Instruction) {
-			if _, ok := in.(*ssa.Return); ok {
-				if h, reachable := held[in]; reachable && !h[stateMutex] {
-					allHeld = false
-				}
-			}
-		})
-		r.Add("R-C09-2", km.FuncName(unseal), "mutex held at every return", c.P.Pos(unseal.Pos()), stateMutex+" in the must-lockset of every return", sprintf("%v", allHeld), allHeld)
 
 		sealedSeen := km.Prim{Name: "Signer==nil seen", Direct: func(f km.Fact) bool {
 			return f.Op == token.EQL && km.IsNilConst(f.Y) && isSignerLoadV(f.X)
@@ -184,8 +158,6 @@ func checkC09(c *km.Ctx) {
 			r.AnchorLost("R-C09-2", "decrypt / load / ready-send sequence in unsealCA")
 		} else {
 			for _, d := range decrypts {
-				ok := c.F.At(d).All(func(k km.Conj) bool { return s.Holds(k, sealedSeen) }) && held[d][stateMutex]
-				r.Add("R-C09-2", km.FuncName(unseal), "decrypt only while sealed", posOf(c, d), "Signer == nil observed under the mutex before any decryption", sprintf("%v", ok), ok)
 				// failure edge cannot reach the load
 				okFail := true
 				for _, ref := range *d.Referrers() {
@@ -217,7 +189,7 @@ func checkC09(c *km.Ctx) {
 			for _, sd := range sends {
 				st := c.F.At(sd)
 				okS := st.All(func(k km.Conj) bool { return s.Holds(k, loadOK) && s.Holds(k, sealedSeen) })
-				r.Add("R-C09-2", km.FuncName(unseal), "ready-send", posOf(c, sd), "send on SignerIsReady only after a successful load and only if the server was sealed on entry", clipS(st.String(), 300), okS)
+				r.Add("R-C09-2", km.FuncName(unseal), "ready-send", posOf(c, sd), "send on SignerIsReady only after a successful load of a server that was found sealed", clipS(st.String(), 300), okS)
 			}
 		}
 		// senders and channel capacity
@@ -468,10 +440,11 @@ func signerMethodDominates(at ssa.Instruction) bool {
 	return false
 }
 
-// checkPublishLoop: the "already published" flag is reset for each signer (its false initialisation happens
-// inside the per-signer loop) and the append happens on its false edge.
+// checkPublishLoop: in the publication routine every installed signer is looked at on its own: an iteration of
+// the per-signer loop ends (goes on to the next signer) only after the signer's public key was appended or was
+// found among the published keys, and the loop is left early only by an error return.
 func checkPublishLoop(c *km.Ctx, pub *ssa.Function) {
-	var fpCall *ssa.Call // getKeyFingerprint(signer.Public()) of the outer loop
+	var fpCall *ssa.Call // getKeyFingerprint(signer.Public()) of the per-signer loop
 	for _, ci := range km.CallsIn(pub) {
 		if cl, ok := ci.(*ssa.Call); ok && km.CalleeFull(cl.Common()) == KMD+".getKeyFingerprint" {
 			if inner, ok := km.Unwrap(cl.Common().Args[0]).(*ssa.Call); ok && inner.Common().IsInvoke() && inner.Common().Method.Name() == "Public" {
@@ -479,28 +452,190 @@ func checkPublishLoop(c *km.Ctx, pub *ssa.Function) {
 			}
 		}
 	}
-	var flagIf *ssa.If
-	var flag *ssa.Phi
-	km.Instrs(pub, func(in ssa.Instruction) {
-		if iff, ok := in.(*ssa.If); ok {
-			v := iff.Cond
-			if u, ok := v.(*ssa.UnOp); ok && u.Op == token.NOT {
-				v = u.X
-			}
-			if p, ok := v.(*ssa.Phi); ok {
-				if b, ok := p.Type().Underlying().(interface{ Info() int }); ok {
-					_ = b
+	if fpCall == nil {
+		c.R.AnchorLost("R-C09-6", "getKeyFingerprint(signer.Public()) in signerPublicKeyToKeymasterKeys")
+		return
+	}
+	signerPub := km.Unwrap(fpCall.Common().Args[0])
+	var signerFP ssa.Value
+	for _, ref := range *fpCall.Referrers() {
+		if ex, ok := ref.(*ssa.Extract); ok && ex.Index == 0 {
+			signerFP = ex
+		}
+	}
+	// the per-signer loop: innermost loop header that dominates the fingerprint call and is reachable from it
+	var header *ssa.BasicBlock
+	for b := fpCall.Block(); b != nil; b = b.Idom() {
+		if km.ReachableBlocks(fpCall.Block(), nil)[b] && b != fpCall.Block() && b.Dominates(fpCall.Block()) {
+			isHeader := false
+			for _, p := range b.Preds {
+				if b.Dominates(p) {
+					isHeader = true
 				}
-				flagIf, flag = iff, p
+			}
+			if isHeader {
+				header = b
+				break
+			}
+		}
+	}
+	if header == nil || signerFP == nil {
+		c.R.AnchorLost("R-C09-6", "per-signer loop around the fingerprint computation in signerPublicKeyToKeymasterKeys")
+		return
+	}
+	// loop body: blocks dominated by the header that can reach it again
+	inLoop := map[*ssa.BasicBlock]bool{}
+	for _, b := range pub.Blocks {
+		if header.Dominates(b) && km.ReachableBlocks(b, nil)[header] {
+			inLoop[b] = true
+		}
+	}
+	// (1) leaving the loop from inside an iteration: only by a return that reports an error
+	okExit, exitDesc := true, "iterations are left only towards the next signer or by an error return"
+	for b := range inLoop {
+		if b == header || !fpCall.Block().Dominates(b) {
+			continue
+		}
+		for _, sc := range b.Succs {
+			if inLoop[sc] {
+				continue
+			}
+			// must lead to an error return without coming back
+			for ob := range km.ReachableBlocks(sc, nil) {
+				if ret, ok := ob.Instrs[len(ob.Instrs)-1].(*ssa.Return); ok {
+					res := km.ReturnValues(ret)
+					if len(res) == 0 || km.IsNilConst(res[len(res)-1]) {
+						okExit, exitDesc = false, "the loop is left at "+posOf(c, b.Instrs[len(b.Instrs)-1])+" towards a successful return: the remaining signers are not examined"
+					}
+				}
+			}
+		}
+	}
+	c.R.Add("R-C09-6", km.FuncName(pub), "every signer is examined", posOf(c, fpCall), "the per-signer loop is left early only by an error return", exitDesc, okExit)
+	// (2) must pass: append of this signer's key, or an edge that establishes "already published"
+	appendBlocks := map[*ssa.BasicBlock]bool{}
+	km.Instrs(pub, func(in ssa.Instruction) {
+		st, ok := in.(*ssa.Store)
+		if !ok {
+			return
+		}
+		fa, ok := st.Addr.(*ssa.FieldAddr)
+		if !ok || fieldNameOf(fa) != "KeymasterPublicKeys" {
+			return
+		}
+		// value: append(<published keys>, signer.Public())
+		if cl, ok := km.Unwrap(st.Val).(*ssa.Call); ok {
+			if b, ok := cl.Common().Value.(*ssa.Builtin); ok && b.Name() == "append" && len(cl.Common().Args) == 2 {
+				if mentionsField(cl.Common().Args[0], "KeymasterPublicKeys") && sliceHoldsOnly(cl.Common().Args[1], signerPub) {
+					appendBlocks[in.Block()] = true
+				}
 			}
 		}
 	})
-	if fpCall == nil || flag == nil {
-		c.R.AnchorLost("R-C09-6", "per-signer fingerprint / found flag in signerPublicKeyToKeymasterKeys")
-		return
+	// "known" edges
+	type edge struct{ from, to *ssa.BasicBlock }
+	known := map[edge]bool{}
+	fpKeyed := func(m ssa.Value) bool { // a set whose keys are all fingerprints
+		mk, ok := km.Unwrap(m).(*ssa.MakeMap)
+		if !ok {
+			return false
+		}
+		n := 0
+		for _, ref := range *mk.Referrers() {
+			if mu, ok := ref.(*ssa.MapUpdate); ok {
+				n++
+				cl, idx := callRes(km.Unwrap(mu.Key))
+				if cl == nil || idx != 0 || km.CalleeFull(cl.Common()) != KMD+".getKeyFingerprint" {
+					return false
+				}
+			}
+		}
+		return n > 0
 	}
+	for b := range inLoop {
+		iff, ok := b.Instrs[len(b.Instrs)-1].(*ssa.If)
+		if !ok {
+			continue
+		}
+		for _, pol := range []bool{true, false} {
+			to := b.Succs[0]
+			if !pol {
+				to = b.Succs[1]
+			}
+			for _, f := range c.F.CondFacts(iff.Cond, pol) {
+				if list, elem, isM := membership(f); isM && elem == signerFP {
+					if fpKeyed(list) || mentionsField(list, "KeymasterPublicKeys") {
+						known[edge{b, to}] = true
+					}
+				}
+				// found flag: a boolean web that is true only under signerFP == <fingerprint> and false-initialised in this iteration
+				if f.Op == token.ILLEGAL && f.Pol {
+					if phi, isPhi := f.X.(*ssa.Phi); isPhi && foundFlagOK(c, phi, fpCall, signerFP) {
+						known[edge{b, to}] = true
+					}
+				}
+			}
+		}
+	}
+	// search: from the block after the fingerprint call to a back edge, avoiding append blocks and known edges
+	bad := ""
+	seen := map[*ssa.BasicBlock]bool{}
+	var dfs func(b *ssa.BasicBlock)
+	dfs = func(b *ssa.BasicBlock) {
+		if seen[b] || appendBlocks[b] || bad != "" {
+			return
+		}
+		seen[b] = true
+		for _, sc := range b.Succs {
+			if known[edge{b, sc}] {
+				continue
+			}
+			if sc == header {
+				bad = "an iteration can end at " + posOf(c, b.Instrs[len(b.Instrs)-1]) + " without the signer's key having been appended or found among the published keys"
+				return
+			}
+			if inLoop[sc] {
+				dfs(sc)
+			}
+		}
+	}
+	dfs(fpCall.Block())
+	found := sprintf("append sites=%d, already-published edges=%d", len(appendBlocks), len(known))
+	if bad != "" {
+		found = bad + " (" + found + ")"
+	}
+	c.R.Add("R-C09-6", km.FuncName(pub), "each signer is published unless already known", posOf(c, fpCall), "every path of an iteration appends signer.Public() to the published keys or passes an edge on which this signer's fingerprint was found among them", found, bad == "" && len(appendBlocks) > 0)
+}
+
+// sliceHoldsOnly: v is the one-element varargs slice holding x
+func sliceHoldsOnly(v ssa.Value, x ssa.Value) bool {
+	sl, ok := km.Unwrap(v).(*ssa.Slice)
+	if !ok {
+		return false
+	}
+	el := sliceSingleElem(sl)
+	if el == nil {
+		return false
+	}
+	e := km.Unwrap(el)
+	if e == x {
+		return true
+	}
+	// the same method invoked again on the same receiver (signer.Public() written twice)
+	a, ok1 := e.(*ssa.Call)
+	b, ok2 := x.(*ssa.Call)
+	if ok1 && ok2 && a.Common().IsInvoke() && b.Common().IsInvoke() && a.Common().Method == b.Common().Method && km.Unwrap(a.Common().Value) == km.Unwrap(b.Common().Value) {
+		return true
+	}
+	return false
+}
+
+// foundFlagOK: the boolean web is set true only under signerFP == <some fingerprint> and its false
+// initialisation lies inside the iteration (after the fingerprint call), so a match for one signer cannot
+// suppress the publication of the next.
+func foundFlagOK(c *km.Ctx, flag *ssa.Phi, fpCall *ssa.Call, signerFP ssa.Value) bool {
 	ok := true
-	desc := "flag reset inside the per-signer loop"
+	nTrue := 0
 	seen := map[*ssa.Phi]bool{}
 	var walk func(p *ssa.Phi)
 	walk = func(p *ssa.Phi) {
@@ -513,31 +648,38 @@ func checkPublishLoop(c *km.Ctx, pub *ssa.Function) {
 			case *ssa.Phi:
 				walk(x)
 			case *ssa.Const:
-				if x.Value != nil && x.Value.Kind() == constant.Bool && !constant.BoolVal(x.Value) {
-					pred := p.Block().Preds[i]
+				if x.Value == nil || x.Value.Kind() != constant.Bool {
+					ok = false
+					continue
+				}
+				pred := p.Block().Preds[i]
+				if !constant.BoolVal(x.Value) {
 					if !fpCall.Block().Dominates(pred) {
 						ok = false
-						desc = "the flag's false initialisation at block " + sprintf("%d", pred.Index) + " is outside the per-signer loop: a match for one signer suppresses publication of the next"
+					}
+					continue
+				}
+				nTrue++
+				matched := false
+				for _, f := range controllingFacts(c, pred) {
+					if f.Op == token.EQL && (f.X == signerFP || f.Y == signerFP) {
+						other := f.Y
+						if f.Y == signerFP {
+							other = f.X
+						}
+						if cl, idx := callRes(km.Unwrap(other)); cl != nil && idx == 0 && km.CalleeFull(cl.Common()) == KMD+".getKeyFingerprint" {
+							matched = true
+						}
 					}
 				}
+				if !matched {
+					ok = false
+				}
+			default:
+				ok = false
 			}
 		}
 	}
 	walk(flag)
-	c.R.Add("R-C09-6", km.FuncName(pub), "found flag reset per signer", posOf(c, flagIf), "each installed signer is compared and, if unknown, published independently", desc, ok)
-	// the append is on the not-found edge
-	appended := false
-	km.Instrs(pub, func(in ssa.Instruction) {
-		if st, ok2 := in.(*ssa.Store); ok2 {
-			if fa, ok3 := st.Addr.(*ssa.FieldAddr); ok3 && fieldNameOf(fa) == "KeymasterPublicKeys" {
-				facts := controllingFacts(c, in.Block())
-				for _, f := range facts {
-					if f.Op == token.ILLEGAL && !f.Pol && f.X == ssa.Value(flag) {
-						appended = true
-					}
-				}
-			}
-		}
-	})
-	c.R.Add("R-C09-6", km.FuncName(pub), "publish when not yet known", posOf(c, flagIf), "the signer's public key is appended on the not-found edge", sprintf("%v", appended), appended)
+	return ok && nTrue > 0
 }
